@@ -135,6 +135,11 @@ func PlanFor(prop, tier string) (*Plan, error) {
 		p.Monitors = func() []Monitor { return []Monitor{NewC10()} }
 		p.Rule = "in every explored state MsgAddAllowedBidder{auction, bidder = signer, max} is delivered through the application's message router for every auction and every bidder incl. an outsider; it must be rejected and the allow-list must be byte-identical afterwards; no other message may change the allow-list; every accepted bid's signer is on the list in the pre-state and every stored bid's bidder is listed in every state; non-trivial = distinct (auction status, listed?, signer, state) deliveries. The process links the application like cmd/fundraisingd does (it imports app, nothing from testutil / simulation)."
 		p.Post = c10Binary
+	case "C17":
+		p.Level = "fault_enumeration"
+		p.Custom = RunHooks
+		p.Rule = "exhaustive product: 21 (operation, pre-state) scenes covering every operation that fires a hook (both creations, cancel, the three bid kinds, modification, add / update allowed bidder, fixed and batch settlement through both batch branches) x 1..3 recording listeners x failing listener position (none, 0..n-1) x which of the hooks fired by the operation fails x registration through SetHooks(MultiFundraisingHooks) and through the module's InvokeSetHooks(map); oracle: exact call sequence (each listener once, none after the veto), arguments equal to the message / committed record / real transfers, announced record not yet in the store view the listener reads, veto => error wrapping the listener's and nothing committed at the transaction boundary (settlement: the block hook returns it); non-trivial = distinct (scene, listeners, failing position, failing hook, registration) cases, all of them executed"
+		p.Assume = []string{trustNote, "wiring through depinject inside app.New is not exercised (app.New accepts no extra providers): listeners are installed on a second real keeper over the application's own store", "I4: fees, reservations and the cancel refund moved before the hook are rolled back at the transaction boundary, which is what is checked"}
 	case "C07":
 		p.Scenarios = []*Scenario{S3(tier, false), S1a(tier, true), S2a(tier, false)}
 		if !quick {
